@@ -8,7 +8,7 @@
 //! (Kani's concrete playback turns a counterexample into a `#[test]`).
 #![allow(clippy::all)]
 #![allow(unused)]
-#![recursion_limit = "2048"]
+#![recursion_limit = "16384"]
 
 pub mod common;
 #[cfg(kani)]
